@@ -42,6 +42,38 @@ def expectedSites : List (String × Use) := [
   ("x/oracle/keeper:Keeper.rewardWinners:validatorPerformances", .keyed),
   ("x/oracle/types:ValidatorPerformances.TotalRewardWeight:vp", .sum)]
 
+/-- what the body of each map-range loop does to anything that outlives one iteration (as `tools/mapranges` prints it): the
+    assignments whose left-hand side is rooted in a variable declared outside the loop, and early exits. This is what the class
+    above rests on: `m[key] = …` with the loop's own key (keyed), `x += …` / `x = x.Add(…)` (sum), `keys = append(keys, k)` followed
+    by a sort (sorted), `return` on a predicate at most one entry satisfies (firstMatch), nothing at all (keyed store writes /
+    events through calls). A new write — e.g. `last = v` — makes the order observable and needs a new look. -/
+def expectedOuterWrites : List (String × List String) := [
+  ("app:*NibiruApp.ModuleAccountAddrs:maccPerms", ["modAccAddrs[authtypes.NewModuleAddress(acc).String()] = true"]),
+  ("app:BlockedAddresses:maccPerms", ["modAccAddrs[authtypes.NewModuleAddress(acc).String()] = true"]),
+  ("app:NewNibiruApp:app.ModuleManager.Modules", []),
+  ("app:NewNibiruApp:app.keys", []),
+  ("x/common/asset:registry.BaseDenoms:r", []),
+  ("x/common/asset:registry.Pair:r[base]", ["return NewPair(string(base), string(quote))"]),
+  ("x/common/asset:registry.QuoteDenoms:r", []),
+  ("x/common/asset:registry.QuoteDenoms:r[base]", []),
+  ("x/common/omap:*SortedMap[K, V].Data:om.InternalData()", ["dataCopy[k] = v"]),
+  ("x/common/omap:*SortedMap[K, V].Union:kvMap", ["om.data[key] = val"]),
+  ("x/common/omap:*SortedMap[K, V].ensureOrder:om.data", ["keys = append(keys, key)"]),
+  ("x/common/set:Set[T].ToSlice:set", ["slice = append(slice, s)"]),
+  ("x/evm/evmmodule:ProvideNibiruBankModule:in.AccountKeeper.GetModulePermissions()", ["blockedAddresses[permission.GetAddress().String()] = true"]),
+  ("x/evm/keeper:*Keeper.AddPrecompiles:precompileMap", []),
+  ("x/evm/precompile:InitPrecompiles:vm.PrecompiledContractsBerlin", ["precompiles[addr] = pc"]),
+  ("x/evm/precompile:methodById:abi.Methods", ["return &method, nil"]),
+  ("x/evm/statedb:*StateDB.DebugDirtiesCount:s.Journal.dirties", ["dirtiesCount += dirtyCount"]),
+  ("x/evm/statedb:*StateDB.DebugStateObjects:s.stateObjects", ["copyOfMap[key] = val"]),
+  ("x/evm/statedb:*journal.sortedDirties:j.dirties", ["keys = append(keys, k)"]),
+  ("x/evm/statedb:Storage.SortedKeys:s", ["keys = append(keys, k)"]),
+  ("x/oracle/keeper:Keeper.UpdateExchangeRates:validatorPerformances", []),
+  ("x/oracle/keeper:Keeper.incrementAbstainsByOmission:validatorPerformances", ["validatorPerformances[valAddr] = performance"]),
+  ("x/oracle/keeper:Keeper.incrementMissCounters:validatorPerformances", []),
+  ("x/oracle/keeper:Keeper.rewardWinners:validatorPerformances", ["distributedRewards = distributedRewards.Add(rewardPortion...)"]),
+  ("x/oracle/types:ValidatorPerformances.TotalRewardWeight:vp", ["totalRewardWeight += validator.RewardWeight"])]
+
 /-- consumers of the one leaking site (`set.Set.ToSlice`) and what they must do with the slice -/
 def expectedToSliceConsumers : List (String × Bool) := [
   ("x/common/set:Set[T].Len", false),                       -- only the length is used
